@@ -184,14 +184,14 @@ Proof.
   destruct (spec_step pages pos ReadPage) as [p r]. now rewrite IH.
 Qed.
 
-Theorem noindex_seek_then_read : forall dict pages h k m, positive pages ->
-  let after := skipn (S (length h)) (run_noindex dict pages (h ++ SeekToRow k :: repeat ReadPage m)) in
+Theorem noindex_seek_then_read : forall pages h k m, positive pages ->
+  let after := skipn (S (length h)) (run_noindex pages (h ++ SeekToRow k :: repeat ReadPage m)) in
   let rows := concat (map out_rows after) in
   rows = firstn (length rows) (skipn k (seq 0 (total_rows pages))) /\
   (In EOF after -> rows = skipn k (seq 0 (total_rows pages))) /\
   Forall good_out after.
 Proof.
-  intros dict pages h k m Hp. cbv zeta. rewrite (noindex_refines _ _ _ Hp). unfold run_spec_noindex.
+  intros pages h k m Hp. cbv zeta. rewrite (noindex_refines _ _ Hp). unfold run_spec_noindex.
   replace (h ++ SeekToRow k :: repeat ReadPage m) with ((h ++ [SeekToRow k]) ++ repeat ReadPage m)
     by (rewrite <- app_assoc; reflexivity).
   replace (S (length h)) with (length (h ++ [SeekToRow k])) by (rewrite app_length; cbn; lia).
@@ -458,11 +458,11 @@ Proof.
   rewrite Hok. cbn [spec_step_noindex fst snd] in *. split; assumption.
 Qed.
 
-Theorem rows_indexed_refines : forall clears pages ops, positive pages ->
+Theorem rows_indexed_refines_gen : forall clears pages ops, positive pages ->
   Forall (reset_allowed clears) ops ->
-  run_rows_indexed clears pages ops = run_rspec true pages ops.
+  run_rows_indexed_gen clears pages ops = run_rspec true pages ops.
 Proof.
-  intros clears pages ops Hp Ha. unfold run_rows_indexed, run_rspec, rinit.
+  intros clears pages ops Hp Ha. unfold run_rows_indexed_gen, run_rspec, rinit.
   apply (rows_reader_refines pages true (step_indexed pages) (inv_indexed pages)); try assumption.
   - lia.
   - intros c p Hc. exact (step_indexed_refines pages Hp c p ReadPage Hc).
@@ -470,17 +470,29 @@ Proof.
   - apply inv_indexed_init.
 Qed.
 
-Theorem rows_noindex_refines : forall clears dict pages ops, positive pages ->
+Theorem rows_noindex_refines_gen : forall clears dict pages ops, positive pages ->
   Forall (reset_allowed clears) ops ->
-  run_rows_noindex clears dict pages ops = run_rspec false pages ops.
+  run_rows_noindex_gen clears dict pages ops = run_rspec false pages ops.
 Proof.
-  intros clears dict pages ops Hp Ha. unfold run_rows_noindex, run_rspec, rinit.
+  intros clears dict pages ops Hp Ha. unfold run_rows_noindex_gen, run_rspec, rinit.
   apply (rows_reader_refines pages false (step_noindex dict pages) (inv_stream pages)); try assumption.
   - lia.
   - intros c p Hc. exact (step_noindex_refines dict pages Hp c p ReadPage Hc).
   - now apply noindex_seek_hyp.
   - apply inv_stream_init.
 Qed.
+
+Lemma reset_always_allowed : forall ops, Forall (reset_allowed true) ops.
+Proof. intros. apply Forall_forall. intros [n|k|] _; exact I || reflexivity. Qed.
+
+(** The current code: every history, Reset included. *)
+Theorem rows_indexed_refines : forall pages ops, positive pages ->
+  run_rows_indexed pages ops = run_rspec true pages ops.
+Proof. intros. apply (rows_indexed_refines_gen true); [assumption|apply reset_always_allowed]. Qed.
+
+Theorem rows_noindex_refines : forall pages ops, positive pages ->
+  run_rows_noindex pages ops = run_rspec false pages ops.
+Proof. intros. apply (rows_noindex_refines_gen true false); [assumption|apply reset_always_allowed]. Qed.
 
 (** Rows returned by any sequence of batch reads after a seek. *)
 Lemma rspec_reads : forall strict pages ns pos,
@@ -517,26 +529,14 @@ Proof.
   - rewrite H0. cbn. now rewrite !skipn_nil.
 Qed.
 
-Theorem rows_indexed_seek_then_read : forall clears pages h k ns, positive pages ->
-  Forall (reset_allowed clears) h ->
+Theorem rows_indexed_seek_then_read : forall pages h k ns, positive pages ->
   concat (map rout_rows (skipn (S (length h))
-    (run_rows_indexed clears pages (h ++ RSeek k :: map RRead ns)))) =
+    (run_rows_indexed pages (h ++ RSeek k :: map RRead ns)))) =
   firstn (list_sum ns) (skipn k (seq 0 (total_rows pages))).
-Proof.
-  intros clears pages h k ns Hp Ha. rewrite rows_indexed_refines; try assumption.
-  - apply rspec_seek_then_read.
-  - apply Forall_app. split; [assumption|]. constructor; [exact I|].
-    apply Forall_forall. intros o Ho. apply in_map_iff in Ho. destruct Ho as (n & <- & _). exact I.
-Qed.
+Proof. intros pages h k ns Hp. rewrite rows_indexed_refines by assumption. apply rspec_seek_then_read. Qed.
 
-Theorem rows_noindex_seek_then_read : forall clears dict pages h k ns, positive pages ->
-  Forall (reset_allowed clears) h ->
+Theorem rows_noindex_seek_then_read : forall pages h k ns, positive pages ->
   concat (map rout_rows (skipn (S (length h))
-    (run_rows_noindex clears dict pages (h ++ RSeek k :: map RRead ns)))) =
+    (run_rows_noindex pages (h ++ RSeek k :: map RRead ns)))) =
   firstn (list_sum ns) (skipn k (seq 0 (total_rows pages))).
-Proof.
-  intros clears dict pages h k ns Hp Ha. rewrite rows_noindex_refines; try assumption.
-  - apply rspec_seek_then_read.
-  - apply Forall_app. split; [assumption|]. constructor; [exact I|].
-    apply Forall_forall. intros o Ho. apply in_map_iff in Ho. destruct Ho as (n & <- & _). exact I.
-Qed.
+Proof. intros pages h k ns Hp. rewrite rows_noindex_refines by assumption. apply rspec_seek_then_read. Qed.
